@@ -51,6 +51,7 @@ def order_fns(rng=None):
         "minleaf": lambda node: min(node),
         "const": lambda node: 0,
         "rand": rnd,
+        "surface": "surface_order",
     }
 
 
